@@ -884,6 +884,34 @@ class HDF5FileSources(Contract):
                     o = Obligation(f'HDF5File::{short}/{len(params(fdef))}#one_record.{dsn[0] if dsn else k_}', {'C10', 'C14'}, [], z3.BoolVal(bool(one)), 'postcondition', None,
                                    'each call appends exactly one record to the dataset (record count argument left at 1)')
                     ex.obls.append(o)
+        # ---- /Impedance/data is the impedance the constructor was GIVEN (main hands in the beam-dynamics impedance, the one the
+        # stored wake potential is computed with: "the stored wake potential is the convolution of that profile with the stored impedance")
+        ctor_ = tu.funcs.get('vfps::HDF5File::HDF5File', [])
+        if len(ctor_) == 1:
+            def innermost_block_with_write(node):
+                best = None
+                for c_ in node.get('inner', []) or []:
+                    if isinstance(c_, dict):
+                        r_ = innermost_block_with_write(c_)
+                        if r_ is not None:
+                            best = r_
+                if best is not None:
+                    return best
+                if node.get('kind') == 'CompoundStmt':
+                    ws = [x for x in _walk(node) if x.get('kind') == 'CXXMemberCallExpr' and x['inner'][0].get('name') == 'write' and
+                          any(y.get('kind') == 'MemberExpr' and y.get('name') in ('_impedanceReal', '_impedanceImag') for y in _walk(x['inner'][0]))]
+                    if ws:
+                        return node
+                return None
+            blk = innermost_block_with_write(body(ctor_[0]))
+            if blk is None:
+                raise ExtractionError('HDF5File constructor: the block writing /Impedance/data was not found')
+            pnames = sorted(set((x.get('referencedDecl') or {}).get('name') for x in _walk(blk) if x.get('kind') == 'DeclRefExpr' and (x.get('referencedDecl') or {}).get('kind') == 'ParmVarDecl'))
+            samples_from = sorted(set(tuple((y.get('referencedDecl') or {}).get('name') for y in _walk(x) if y.get('kind') == 'DeclRefExpr' and (y.get('referencedDecl') or {}).get('kind') == 'ParmVarDecl')
+                                      for x in _walk(blk) if x.get('kind') == 'CXXMemberCallExpr' and x['inner'][0].get('name') == 'impedance'))
+            ok_imp = pnames == ['imp'] and samples_from == [('imp',)]
+            ex.obls.append(Obligation('HDF5File#source.stored_impedance_is_the_one_handed_in', {'C10'}, [], z3.BoolVal(bool(ok_imp)), 'postcondition', line_of(blk),
+                                      f'the block that writes /Impedance/data reads the constructor parameters {pnames}; impedance() is called on {samples_from} (expected: imp only)'))
         # ---- appendRFKicks(kicks): as many records as the list has entries, read from that list, into the RF-kick dataset (C19)
         rfk = [f for f in tu.funcs.get('vfps::HDF5File::appendRFKicks', []) if body(f) is not None]
         if len(rfk) != 1:
